@@ -173,9 +173,16 @@ class Sandbox:
         Returns:
             :py:class:`pedal.sandbox.sandbox.Sandbox`
         """
+        def timed_execute():
+            # The execution that `_execute` starts next is the one that this
+            # new thread and the waiting thread race to finalize (the thread
+            # learns which one it is in `_start_mocking`); executions that
+            # merely happen to finish on such a thread are not raced for.
+            threading.current_thread().timed_context = None
+            return self._execute(code, filename, kind, False, **meta)
+
         try:
-            return timeout(self.allowed_time, self._execute,
-                           code, filename, kind, False, **meta)
+            return timeout(self.allowed_time, timed_execute)
         except TimeoutError as timeout_exception:
             # The student thread was abandoned (it lost the claim, see
             # `_stop_mocking`), so everything `_execute` would have done when
@@ -561,6 +568,11 @@ class Sandbox:
 
     def _start_mocking(self, context: SandboxContext):
         """ Mock input, output, builtins, and modules """
+        # A thread started by `_execute_with_timeout` remembers the execution
+        # it was started for (see `_claim_finish`)
+        thread = threading.current_thread()
+        if getattr(thread, 'timed_context', False) is None:
+            thread.timed_context = context
         # Handle input tracking
         self.mock_function('input', self._track_inputs(context.inputs))
         # Override builtin functions
@@ -588,7 +600,7 @@ class Sandbox:
     def _stop_mocking(self, context: SandboxContext):
         """ Turn off any patches, store output """
         _verif_sync("finalize:enter")
-        if not self._claim_finish():
+        if not self._claim_finish(context):
             # This execution timed out and the waiting thread already did all
             # of this: end the abandoned thread (silently, as SystemExit does)
             # without touching the sandbox.
@@ -599,14 +611,21 @@ class Sandbox:
         _verif_sync("finalize:exit")
 
     @staticmethod
-    def _claim_finish():
+    def _claim_finish(context):
         """
-        Whether the current thread may finalize the execution it is running:
-        always, unless it is a thread started by `timeout` whose caller has
-        already given up on it (and finalized the execution itself).
+        Whether the current thread may finalize the execution `context`:
+        always, unless it is the execution that `timeout` started this thread
+        for and the caller has already given up on it (and finalized the
+        execution itself). Other executions that finish on such a thread (one
+        started by the running code, or any execution of a grading script that
+        is itself run under `timeout`) neither use up the thread's one-shot
+        claim nor are stopped by it.
         """
-        claim = getattr(threading.current_thread(), 'claim_finish', None)
-        return claim is None or claim()
+        thread = threading.current_thread()
+        claim = getattr(thread, 'claim_finish', None)
+        if claim is None or getattr(thread, 'timed_context', None) is not context:
+            return True
+        return claim()
 
     # Patching Functionality
     def _start_patches(self, *patches):
